@@ -151,6 +151,8 @@ class SeqEval:
             if short == 'clear':
                 del v[:]
                 return
+            if short in ('reserve', 'shrink_to_fit'):
+                return
             raise evalx.NotEvaluable('vector operation ' + short)
         if k == 'call':
             args = s.get('a', [])
